@@ -130,7 +130,7 @@ pub fn campaigns(ctx: &Ctx) -> Stats {
         let tr = if i % 2 == 0 { [true, true, true] } else { [true, false, true] };
         let leaves = cfg.leaves(tr);
         let out = refmodel::ops::matmul(&T::from_f64(&cfg.a, &leaves[0].vals), cfg.ta, &T::from_f64(&cfg.b, &leaves[1].vals), cfg.tb, None).ok()?;
-        Some(Case3::G(GradCase { op: cfg.op(), leaves, seed: Some(distinct_seed(out.numel())), uses: 2, passes: 1, same_operand: false }))
+        Some(Case3::G(GradCase { op: cfg.op(), leaves, seed: Some(distinct_seed(out.numel())), uses: 2, passes: 1, same_operand: false, detached_clone: 0 }))
     }));
     // arbitrary programs: every stored gradient (leaves and operation results) has its array's shape and value
     let (len, total) = t.pick((12usize, 30000u64), (32, 600000));
